@@ -140,6 +140,37 @@ Definition sys (f0 : fs) (objs : list obj) (readers : list (@thread local action
 Definition run (sched : list nat) (f0 : fs) (objs : list obj) (readers : list (@thread local action)) :=
   exec act sched (sys f0 objs readers).
 
+(* ---------- the result handed to the caller (src/compiler/compiler.rs, the cache-hit arm) ----------
+   Ok: the request is answered from the cache.  A DecompressionFailure (a member that is missing or does not
+   decode, not optional) turns the hit into a miss (`MissType::CacheReadError`): the compiler runs and rewrites
+   the outputs.  Any other error (temp file cannot be made, persist or chmod fails) fails the request. *)
+Inductive result := ROk | RDecompressionFailure | ROtherError.
+
+Definition o_hard (o : obj) : option result :=
+  match o_fault o with
+  | FCreate => Some ROtherError
+  | flt =>
+      match o_dec o with
+      | DecErr => if o_optional o then None else Some RDecompressionFailure
+      | DecOk mode =>
+          match flt with
+          | FPersist => Some ROtherError
+          | FChmod => match mode with Some _ => Some ROtherError | None => None end
+          | _ => None
+          end
+      end
+  end.
+
+Fixpoint static_result (objs : list obj) : result :=
+  match objs with
+  | [] => ROk
+  | o :: r => match o_hard o with Some e => e | None => static_result r end
+  end.
+
+(* the result of a run that ended in local state [l] *)
+Definition result_of (objs : list obj) (l : local) : result :=
+  if l_dead l then match static_result objs with ROk => ROtherError | e => e end else ROk.
+
 (* ---------- what an observer may be ---------- *)
 
 Definition reader_action (a : action) : bool :=
